@@ -1175,6 +1175,17 @@ func expandPhis(e ExitPoint, depth int) []ExitPoint {
 	var phiBlock *ssa.BasicBlock
 	for _, v := range e.Results {
 		if p, ok := v.(*ssa.Phi); ok && (p.Block() == blk || (e.Edge == nil && p.Block().Dominates(blk))) {
+			// a loop-header phi is no alternative of the exit: its operands are the values of the previous iteration
+			// and of the loop entry, and the facts on those edges say nothing about the iteration that returns
+			isHeader := false
+			for _, pr := range p.Block().Preds {
+				if p.Block().Dominates(pr) {
+					isHeader = true
+				}
+			}
+			if isHeader {
+				continue
+			}
 			phiBlock = p.Block()
 			break
 		}
